@@ -6,6 +6,7 @@ import (
 	"encoding/json"
 	"fmt"
 	"io"
+	"reflect"
 	"sync"
 
 	"github.com/rs/zerolog"
@@ -140,17 +141,24 @@ func (c *ToxicCollection) UpdateToxicJson(
 
 	toxic := c.findToxicByName(name)
 	if toxic != nil {
+		// Decode into a copy of the toxic: encoding/json assigns every well-formed
+		// field even when it reports an error for another one, and a rejected
+		// request must leave the toxic that is in use untouched.
+		current := reflect.ValueOf(toxic.Toxic).Elem()
+		updated := reflect.New(current.Type())
+		updated.Elem().Set(current)
 		attrs := &struct {
 			Attributes interface{} `json:"attributes"`
 			Toxicity   float32     `json:"toxicity"`
 		}{
-			toxic.Toxic,
+			updated.Interface(),
 			toxic.Toxicity,
 		}
 		err := json.NewDecoder(data).Decode(attrs)
 		if err != nil {
 			return nil, joinError(err, ErrBadRequestBody)
 		}
+		current.Set(updated.Elem())
 		toxic.Toxicity = attrs.Toxicity
 
 		c.chainUpdateToxic(toxic)
